@@ -52,11 +52,15 @@ type gatedBackend struct {
 	inCS     atomic.Bool  // between a successful Lock() and Unlock()
 	// hooks of the separate-process variant (locklife_procs.go): signal through files instead of channels
 	onGate    func()
+	onEnter   func()
 	onAcquire func()
 }
 
 func (b *gatedBackend) Lock() error {
 	b.entered.Add(1)
+	if b.onEnter != nil {
+		b.onEnter()
+	}
 	err := b.inner.Lock()
 	if err == nil {
 		b.inCS.Store(true)
@@ -300,14 +304,18 @@ func runLockLife(hist, sa, ua string, maxWait time.Duration) lifeResult {
 	case <-time.After(20 * time.Second):
 		return lifeResult{out: "timeout s"}
 	}
-	uAcq0 := hU.be.acquired.Load()
+	uAcq0, uEnt0 := hU.be.acquired.Load(), hU.be.entered.Load()
 	go func() { _, err := ringU.AddKey(symDescription(material(dU))); uDone <- err }()
 	overlap := false
 	uFinished := false
 	if !sFinished {
 		t0 := time.Now()
+		var tEnter time.Time // when u was first seen inside Lock(): the bounded wait starts there
 	wait:
 		for {
+			if tEnter.IsZero() && hU.be.entered.Load() > uEnt0 {
+				tEnter = time.Now()
+			}
 			if hU.be.acquired.Load() > uAcq0 && hS.be.inCS.Load() {
 				overlap = true // u is inside its exclusive section while s is inside its own
 				break
@@ -323,7 +331,7 @@ func runLockLife(hist, sa, ua string, maxWait time.Duration) lifeResult {
 				res.waiterSeen = true
 				break
 			}
-			if time.Since(t0) > maxWait {
+			if (!tEnter.IsZero() && time.Since(tEnter) > maxWait) || time.Since(t0) > 10*time.Second {
 				break
 			}
 			time.Sleep(300 * time.Microsecond)
